@@ -103,6 +103,26 @@ def check_trees(text, stmts):
     return None
 
 
+def check_str(stmts, limit):
+    """str() of the returned statements, under the recursion limit the
+    call itself succeeded with."""
+    want = [''.join(l.value for l in leaves_iter(s)) for s in stmts]
+    sys.setrecursionlimit(limit)
+    try:
+        for s, w in zip(stmts, want):
+            if str(s) != w:
+                return 'str() of a returned statement is not its leaves'
+    except RecursionError:
+        return ('str() of a returned statement raises RecursionError under '
+                'the recursion limit the call succeeded with')
+    return None
+
+
+REALISTIC = ('select coalesce(sum(case when a > 0 then round(b * (1 + c), 2) '
+             'else 0 end), 0) as total from t where x in (select y from u '
+             'where z = (select max(w) from v where k in (1, (2), f(g(3)))))')
+
+
 def _groups(root):
     stack = [root]
     while stack:
@@ -117,11 +137,18 @@ def main():
     cell = json.loads(sys.argv[1])
     resource.setrlimit(resource.RLIMIT_CPU, (cell.get('cpu', 300),
                                              cell.get('cpu', 300) + 10))
-    import sqlparse
-    from sqlparse.exceptions import SQLParseError
+    default_limit = sys.getrecursionlimit()
+    if cell.get('import_limit'):
+        # the library is imported while the recursion limit is low; the
+        # limit is back to the default before the first call
+        sys.setrecursionlimit(cell['import_limit'])
+    try:
+        import sqlparse
+        from sqlparse.exceptions import SQLParseError
+    finally:
+        sys.setrecursionlimit(default_limit)
     text = build(cell['construct'], cell['depth'])
     entry = cell['entry']
-    default_limit = sys.getrecursionlimit()
     res = {'outcome': None, 'cause_recursion': False, 'check': None,
            'after': None}
     sys.setrecursionlimit(cell['limit'])
@@ -148,6 +175,9 @@ def main():
         try:
             if entry in ('parse', 'parsestream'):
                 res['check'] = check_trees(text, value)
+                if res['check'] is None:
+                    res['check'] = check_str(value, cell['limit'])
+                    sys.setrecursionlimit(max(default_limit, 1000))
             elif entry == 'split':
                 j = ''.join(value)
                 ok = all(isinstance(p, str) and p for p in value) and \
@@ -164,6 +194,15 @@ def main():
         st = sqlparse.parse('select a from b where c = 1')
         if len(st) != 1 or st[0].get_type() != 'SELECT':
             res['after'] = 'later parse() gave %r' % (st,)
+        st = sqlparse.parse(REALISTIC)
+        if len(st) != 1 or str(st[0]) != REALISTIC \
+                or st[0].get_type() != 'SELECT':
+            res['after'] = 'later parse() of an ordinary nested query gave ' \
+                '%r' % (st,)
+        if REALISTIC.replace(' ', '') != ''.join(sqlparse.format(
+                REALISTIC, reindent=True).split()):
+            res['after'] = 'later format() of an ordinary nested query ' \
+                'changed it'
         sp = sqlparse.split('select 1 from t; select 2')
         if sp != ['select 1 from t;', 'select 2']:
             res['after'] = 'later split() gave %r' % ([x[:40] for x in sp],)
